@@ -1,0 +1,16 @@
+//go:build verif
+
+package cmd
+
+import (
+	"io"
+
+	"github.com/spf13/cobra"
+
+	"helm.sh/helm/v4/pkg/action"
+)
+
+// VerifNewTemplateCmd exposes newTemplateCmd (`helm template`) to the verification harness.
+func VerifNewTemplateCmd(cfg *action.Configuration, out io.Writer) *cobra.Command {
+	return newTemplateCmd(cfg, out)
+}
